@@ -18,23 +18,9 @@ type Deviant struct {
 	Causes     map[string]string // category (dst, scc, sdst, vcc, exec, pc, ...) -> cause
 	PanicIf    func(t *task, pre *isaspec.State) bool
 	PanicCause string
+	Pat        string         // operand widths as the decoder set them up (when they differ from the manual)
+	M          *isaspec.MemOp // memory operation as implemented
+	SDWA       string         // SDWA destination handling as implemented
 }
 
 var deviants = map[string]*Deviant{}
-
-func deviant(a isaspec.Arch, in *isaspec.Instr, e *isaspec.Entry) *Deviant {
-	if d, ok := deviants[a.String()+"/"+in.Mnem]; ok {
-		return d
-	}
-	if d, ok := deviants["both/"+in.Mnem]; ok {
-		return d
-	}
-	// register-file level deviations shared by every opcode
-	for i, r := range e.Pat {
-		if i < len(in.Ops) && (r.R == 'D') && in.Ops[i].Kind == isaspec.KVCCHi {
-			return &Deviant{What: "emu.Wavefront.WriteReg(vcc_hi) masks with 0xffffffff00000000: vcc_lo is cleared and the value is ORed into the old vcc_hi",
-				Quirk: isaspec.QVCCHiWrite, Causes: map[string]string{"dst": "=emu.Wavefront/WriteReg/vcc_hi/clears-vcc_lo-ors-into-vcc_hi", "vcc": "=emu.Wavefront/WriteReg/vcc_hi/clears-vcc_lo-ors-into-vcc_hi"}}
-		}
-	}
-	return nil
-}
